@@ -658,5 +658,36 @@ def _loop_body_end(self, n, ghost):
     return self
 
 
+def _let_array_pattern(self, occ, var='p__'):
+    """desugaring 1 for `let` bindings: the occ-th `let [a, b] = E;` of the item => `let p__ = E; let a = p__[0]; let b = p__[1];`"""
+    rx = re.compile(r'\blet\s+(\[[\w\s,]*\])\s*=')
+    pos = self.body_open + 1
+    m = None
+    for _ in range(occ):
+        m = rp.find_code_re(self.orig, self.mask, rx, pos)
+        if not m:
+            raise LostAnchor(self.name, '`let [..] =` #%d not found' % occ, True)
+        pos = m.end()
+    pat = m.group(1)
+    names = [x.strip() for x in pat[1:-1].split(',') if x.strip()]
+    # end of the statement: the next `;` at nesting depth 0
+    depth = 0
+    k = m.end()
+    while True:
+        if self.mask[k]:
+            ch = self.orig[k]
+            if ch in '([{':
+                depth += 1
+            elif ch in ')]}':
+                depth -= 1
+            elif ch == ';' and depth == 0:
+                break
+        k += 1
+    self._add(m.start(1), 'pat', len(pat), var)
+    self._add(k + 1, 'patlet', 0, ' ' + ' '.join('let %s = %s[%d];' % (nm, var, i) for i, nm in enumerate(names) if nm != '_'))
+    return self
+
+
+Item.let_array_pattern = _let_array_pattern
 Item.loop_body_start = _loop_body_start
 Item.loop_body_end = _loop_body_end
